@@ -151,6 +151,8 @@ FAILING_PROGRAMS = [
     b'[x for x in 5]', b'{[1]: 2}', b'{a: 1} < {a: 2}', b'null < null', b'std.sort([1, "a"])', b'local x = x; x',
     b'std.manifestJsonEx(function(x) x, " ")', b'function(x) x', b'std.assertEqual(1, 2)', b'1 << -1', b'1 << 2000',
     b'std.char(-1)', b'std.makeArray(-1, function(i) i)', b'std.base64Decode("!")', b'std.parseJson("{")', b'std.parseYaml("a: [")',
+    # errors whose primary span consists of zero-display-width characters only (combining mark, ZWSP, ZWJ)
+    b'\xcd\xa1', b'1 + \xe2\x80\x8b', b'e\xcc\x81', b'{a: 1}\n\xe2\x80\x8d', b'"a\xcd\xa1" + {}', b'/* \xcc\x81 */ \xcc\x81',
 ]
 
 
@@ -255,7 +257,11 @@ def check_diagnostics(run, impl_exe, cli, tier, rng):
                     if problem is None and crop is not None and ntrace > crop:
                         if ('%d items hidden' % (ntrace - crop)) not in plain:
                             problem = 'cropped trace (%d of %d) lacks the hidden-items note' % (crop, ntrace)
-                    if problem:
+                    if problem and p.returncode not in (0, 1, 2) and 'end_col > annot.span.start_col' in err:
+                        run.violation('renderer-zero-width-span', 'report rendering aborts (exit %d, assertion in the snippet renderer) when the '
+                                      'primary span covers only zero-width characters: %r' % (p.returncode, src),
+                                      {'kind': 'cli', 'source_hex': hxl(list(src)), 'argv': cmd[1:-1], 'color': color})
+                    elif problem:
                         run.violation('diag-cli:' + problem.split(' (')[0][:40], '%s for %r (argv %s, colour=%s)' % (problem, src, cmd[1:-1], color),
                                       {'kind': 'cli', 'source_hex': hxl(list(src)), 'argv': cmd[1:-1], 'color': color})
     finally:
